@@ -70,4 +70,40 @@ __CPROVER_requires(ENV_SYNTH_INV && c < g_synth.m_numChannels && g_tap_n == 0)
 __CPROVER_assigns(g_tap_n, __CPROVER_object_whole(g_tap))
 __CPROVER_ensures(g_tap_n == 1 && g_tap[0].chip == SPEC_CH_CHIP(c) && g_tap[0].port == 0 && g_tap[0].addr == 0x28 && !g_tap[0].is_pan &&
                   g_tap[0].val == ((c % 6) < 3 ? (c % 6) : (c % 6) + 1));
+
+/* ---------------------------------------------------------------- setPatch / setPan --------------------------- */
+extern OpnTimbre in_timbre;      /* ghost copy of the instrument handed to setPatch */
+static bool spec_setpatch_writes(size_t c)
+{
+    bool ok = g_tap_n == 30;
+    /* 7 register groups 0x30,0x40,..,0x90 x 4 operators: value = the instrument's byte d of operator op */
+    for(unsigned d = 0; d < 7; d++)
+        for(unsigned op = 0; op < 4; op++)
+        {
+            const tap_rec *t = &g_tap[d * 4 + op];
+            ok = ok && t->chip == SPEC_CH_CHIP(c) && t->port == SPEC_CH_PORT(c) && !t->is_pan &&
+                 t->addr == 0x30 + 0x10 * d + 4 * op + SPEC_CH_CC(c) && t->val == in_timbre.OPS[op].data[d];
+        }
+    ok = ok && g_tap[28].chip == SPEC_CH_CHIP(c) && g_tap[28].port == SPEC_CH_PORT(c) && g_tap[28].addr == 0xB0 + SPEC_CH_CC(c) && g_tap[28].val == in_timbre.fbalg;
+    ok = ok && g_tap[29].chip == SPEC_CH_CHIP(c) && g_tap[29].port == SPEC_CH_PORT(c) && g_tap[29].addr == 0xB4 + SPEC_CH_CC(c);
+    return ok;
+}
+/* C12/C02: the timbre uploaded to the chip is the instrument given (7 bytes x 4 operators, feedback/algorithm), the
+ * channel's cache holds it afterwards, panning bits of B4 are kept, LFO sensitivity bits come from the instrument */
+void setPatch(size_t c, const OpnTimbre *instrument__p)
+__CPROVER_requires(ENV_SYNTH_INV && c < g_synth.m_numChannels && g_tap_n == 0 && instrument__p == &in_timbre)
+__CPROVER_assigns(g_tap_n, __CPROVER_object_whole(g_tap), g_insCache_storage, g_regLFOSens_storage)
+__CPROVER_ensures(spec_setpatch_writes(c))
+__CPROVER_ensures(g_regLFOSens_storage[c] == ((__CPROVER_old(g_regLFOSens_storage[c]) & 0xC0) | (in_timbre.lfosens & 0x3F)) && g_tap[29].val == g_regLFOSens_storage[c])
+__CPROVER_ensures(g_insCache_storage[c].fbalg == in_timbre.fbalg && g_insCache_storage[c].lfosens == in_timbre.lfosens && g_insCache_storage[c].noteOffset == in_timbre.noteOffset &&
+                  g_insCache_storage[c].OPS[0].data[1] == in_timbre.OPS[0].data[1] && g_insCache_storage[c].OPS[3].data[6] == in_timbre.OPS[3].data[6]);
+
+/* setPan: one pan write and one B4 write for this channel only; hard panning keeps left for value < 80, right for value >= 48 */
+void setPan(size_t c, uint8_t value)
+__CPROVER_requires(ENV_SYNTH_INV && c < g_synth.m_numChannels && g_tap_n == 0)
+__CPROVER_assigns(g_tap_n, __CPROVER_object_whole(g_tap), g_regLFOSens_storage)
+__CPROVER_ensures(g_tap_n == 2 && g_tap[0].is_pan && g_tap[0].chip == SPEC_CH_CHIP(c) && g_tap[0].addr == c % 6 && g_tap[0].val == (g_synth.m_softPanning ? value : 64))
+__CPROVER_ensures(!g_tap[1].is_pan && g_tap[1].chip == SPEC_CH_CHIP(c) && g_tap[1].port == SPEC_CH_PORT(c) && g_tap[1].addr == 0xB4 + SPEC_CH_CC(c) && g_tap[1].val == g_regLFOSens_storage[c])
+__CPROVER_ensures((g_tap[1].val & 0x3F) == (g_insCache_storage[c].lfosens & 0x3F))
+__CPROVER_ensures(g_synth.m_softPanning ? (g_tap[1].val & 0xC0) == 0xC0 : ((g_tap[1].val & 0x80) != 0) == (value < 80) && ((g_tap[1].val & 0x40) != 0) == (value >= 48));
 #endif
